@@ -30,6 +30,7 @@ type cliScenario struct {
 	Existing string   `json:"existing,omitempty"`  // what the destination file holds beforehand: "" | shorter | longer
 	LongLine int      `json:"long_line,omitempty"` // the text holds one comment line of this many bytes (sizes around the usual I/O buffer limits)
 	Flags    []string `json:"flags"`
+	Extra    bool     `json:"extra_grammar_argument,omitempty"` // a second, valid grammar file is named after the first
 }
 
 func (s cliScenario) String() string {
@@ -39,6 +40,9 @@ func (s cliScenario) String() string {
 	}
 	if s.LongLine > 0 {
 		ex += fmt.Sprintf(" comment-line-of-%d-bytes", s.LongLine)
+	}
+	if s.Extra {
+		ex += " followed-by-a-second-valid-grammar-argument"
 	}
 	return fmt.Sprintf("grammar=%s source=%s dest=%s%s flags=%v", s.Grammar, s.Source, s.Dest, ex, s.Flags)
 }
@@ -121,6 +125,11 @@ func c18Gen(t *rapid.T) cliScenario {
 			sc.Flags = append(sc.Flags, f)
 		}
 	}
+	// a second grammar named on the same command line: whatever the command does with it, a
+	// zero exit status still requires the parser of the first
+	if src := sc.Source; src == "file" || src == "missing" || src == "directory" {
+		sc.Extra = rapid.IntRange(0, 3).Draw(t, "extra") == 0
+	}
 	return sc
 }
 
@@ -188,6 +197,10 @@ func runScenario(c *drv.Ctx, bin string, sc cliScenario, n int) string {
 		grammarFile = "srcdir"
 	}
 	fromFile := sc.Source == "file" || sc.Source == "missing" || sc.Source == "directory"
+	if sc.Extra && fromFile {
+		_ = os.WriteFile(filepath.Join(dir, "other.peg"), []byte("package other\n\ntype Other Peg {\n}\n\nStart <- 'o' !.\n"), 0o644)
+		args = append(args, "other.peg")
+	}
 	if sc.Dest == "default" {
 		if fromFile {
 			destPath = filepath.Join(dir, grammarFile+".go")
